@@ -182,7 +182,7 @@ def declared_outputs(spec):
 # ---------------------------------------------------------------------------------------------
 
 
-def gen_project(rng, size=None, features=None):
+def gen_project(rng, size=None, features=None, prob=None):
     """Generate a valid project.
 
     features: set of optional features to allow; default allows everything.
@@ -190,6 +190,8 @@ def gen_project(rng, size=None, features=None):
     feats = features if features is not None else {
         "optional", "include", "amend_out", "subplan", "prog", "defines", "vol", "env", "tree",
         "pattern", "glob", "res", "hold", "wd"}
+    pr = {"res": 0.2, "hold": 0.15, "hold_defines": 0.3, "defines": 0.2, "optional": 0.3}
+    pr.update(prob or {})
     nsrc = rng.randint(2, 5)
     nstep = size or rng.randint(2, 8)
     spec = {"sources": {}, "steps": {}, "plans": {".": []}, "env": {}}
@@ -221,12 +223,14 @@ def gen_project(rng, size=None, features=None):
             st["out"].append(f"out/{sid}_b.txt")
         if "vol" in feats and rng.random() < 0.15:
             st["vol"] = [f"out/{sid}.log"]
-        if "optional" in feats and rng.random() < 0.3:
+        if "optional" in feats and rng.random() < pr["optional"]:
             st["need"] = "OPTIONAL"
         if "env" in feats and spec["env"] and rng.random() < 0.3:
             st["env"] = ["VERIF_E1"]
-        if "res" in feats and rng.random() < 0.2:
+        if "res" in feats and rng.random() < pr["res"]:
             st["res"] = {rng.choice(["cpu", "gpu"]): rng.choice([1, 2])}
+            if rng.random() < 0.2:
+                st["res"]["gpu" if "cpu" in st["res"] else "cpu"] = 1
         if "amend_out" in feats and rng.random() < 0.2:
             st["amend_out"] = [f"out/{sid}_am.txt"]
         if "wd" in feats and rng.random() < 0.15:
@@ -266,7 +270,7 @@ def gen_project(rng, size=None, features=None):
     defined_by_step = set()
     if "defines" in feats:
         for sid in order:
-            if rng.random() < 0.2:
+            if rng.random() < pr["defines"]:
                 later = [s for s in order if order.index(s) > order.index(sid)
                          and s not in defined_by_step]
                 if later:
@@ -275,7 +279,7 @@ def gen_project(rng, size=None, features=None):
                     if not (set(spec["steps"][sub]["out"]) & set(spec["steps"][sid]["inp"])):
                         spec["steps"][sid].setdefault("defines", []).append(sub)
                         defined_by_step.add(sub)
-                        if "hold" in feats and rng.random() < 0.3:
+                        if "hold" in feats and rng.random() < pr["hold_defines"]:
                             spec["steps"][sid]["hold_defines"] = True
     # static declarations in the root plan
     root = spec["plans"]["."]
@@ -319,7 +323,7 @@ def gen_project(rng, size=None, features=None):
             continue
         wd = step_plan[sid]
         item = ["step", sid]
-        if wd == "." and "hold" in feats and rng.random() < 0.15:
+        if wd == "." and "hold" in feats and rng.random() < pr["hold"]:
             hold_bucket.append(item)
         else:
             spec["plans"][wd].append(item)
